@@ -132,6 +132,36 @@ func (o *Obs) emitInitAndWS(s *hx.Session, res *Result, initial bool) {
 	}
 }
 
+// emitFreshOnly emits the `fresh` line of the target commit.
+func (o *Obs) emitFreshOnly(s *hx.Session) {
+	seen := map[string]bool{}
+	var pairs []string
+	for _, l := range o.Trace {
+		if !strings.HasPrefix(l, "reg.UpdateNoLocks [") {
+			continue
+		}
+		body := strings.TrimSuffix(strings.TrimPrefix(strings.Split(l, "]")[0], "reg.UpdateNoLocks ["), "]")
+		for _, img := range strings.Fields(body) {
+			f := strings.Split(img, ":")
+			if len(f) != 7 {
+				continue
+			}
+			in := f[2]
+			if f[3] == "1" {
+				in = f[1]
+			}
+			k, _ := strconv.Atoi(in)
+			if k > o.Res.N0 && !seen[in] {
+				seen[in] = true
+				pairs = append(pairs, f[0]+":"+in)
+			}
+		}
+	}
+	if len(pairs) > 0 {
+		s.Op("fresh "+strings.Join(pairs, ","), "ok")
+	}
+}
+
 func (o *Obs) emitRest(ctx context.Context, s *hx.Session) {
 	// --- fresh ids: inactive ids first seen in the reservation writes of this commit (and of the retry)
 	emitFresh := func(trace []string, n0 int) {
